@@ -274,7 +274,7 @@ func TestC18(t *testing.T) {
 		ev.Exhaustive("truncations", true)
 	})
 
-	check(t, "structured", 15000, 50000, func(rt *rapid.T) {
+	check(t, "structured", 15000, 100000, func(rt *rapid.T) {
 		var mp *onnx.ModelProto
 		src := "generated"
 		if rapid.IntRange(0, 3).Draw(rt, "fromSample") == 0 && len(seedNames) > 0 {
@@ -306,7 +306,7 @@ func TestC18(t *testing.T) {
 		}
 	})
 
-	check(t, "byte-mutations", 15000, 50000, func(rt *rapid.T) {
+	check(t, "byte-mutations", 15000, 100000, func(rt *rapid.T) {
 		var b []byte
 		if rapid.Bool().Draw(rt, "fromSample") && len(seedNames) > 0 {
 			b = seeds[rapid.SampledFrom(seedNames).Draw(rt, "seed")]
@@ -323,7 +323,7 @@ func TestC18(t *testing.T) {
 		}
 	})
 
-	check(t, "unknown-operator", 5000, 15000, func(rt *rapid.T) {
+	check(t, "unknown-operator", 5000, 30000, func(rt *rapid.T) {
 		gg := genGraph(rt, ggOpts{maxNodes: 6, allOutputs: true})
 		mp := gg.model(rt)
 		feed := gg.feed(rt, gg.batchN)
